@@ -58,6 +58,12 @@ def run_property(pid, tier="quick", seed=0):
         if not ok:
             status["harness_error"].append("conformance %s: %s" % (name, detail))
 
+    # 1b. CrossHair kernels run as subprocesses alongside the exploration
+    ch_handles = []
+    if hasattr(mod, "crosshair_kernels"):
+        from . import chk
+        ch_handles = chk.start(mod.crosshair_kernels(tier))
+
     # 2. symbolic exploration
     budget = plan.get("time_budget", 420 if tier == "quick" else 2400)
     agg = core.explore(hnames, tier=tier, opts=opts, time_budget=budget)
@@ -127,6 +133,27 @@ def run_property(pid, tier="quick", seed=0):
                 status["harness_error"].append(
                     "counterexample for %s/%s does not reproduce on the real code: %s | inputs=%s"
                     % (hn, c["obligation"], what, json.dumps(c["inputs"])[:400]))
+
+    # 4b. CrossHair kernels
+    ch_results = []
+    if ch_handles:
+        from . import chk
+        ch_results = chk.finish(ch_handles)
+        for r in ch_results:
+            if r["status"] == "counterexample":
+                rp = r.get("replay", {})
+                if rp.get("confirmed"):
+                    c = {"harness": "crosshair:" + r["name"], "case": None, "case_idx": 0,
+                         "obligation": "contract of " + r["function"], "inputs": {"call": rp.get("call")},
+                         "detail": None, "decisions": []}
+                    status["violations"].append((c, "real code returns %s, oracle %s for %s" % (
+                        rp.get("real_code_returns"), rp.get("oracle"), rp.get("call"))))
+                else:
+                    status["harness_error"].append("CrossHair counterexample for %s does not reproduce: %s"
+                                                   % (r["name"], rp))
+            elif r["status"] != "confirmed":
+                status["inconclusive"].append("CrossHair kernel %s: %s" % (r["name"], r.get("message")))
+    status["crosshair"] = ch_results
 
     # 5. known findings: replay each listed witness; print KNOWN-FINDING if it still fails
     for e in known:
@@ -256,6 +283,7 @@ def write_evidence(pid, tier, seed, mod, plan, agg, conf, status, replayed, wall
             "stubs": getattr(mod, "STUBS", []),
             "harnesses": per_h,
             "conformance": [{"name": n, "ok": bool(ok)} for n, ok, _ in conf],
+            "crosshair_kernels": status.get("crosshair", []),
             "known_findings_printed": status["known"],
             "inconclusive": status["inconclusive"][:10],
             "harness_errors": status["harness_error"][:10],
